@@ -61,6 +61,7 @@ pub fn main(args: &Args) -> i32 {
         "gas" => gas(args, &mut b, &mut rng),
         "compute" => compute(args, &mut b, &mut rng),
         "equiv" => equiv(args, &mut b, &mut rng),
+        "sched" => sched(args, &mut b, &mut rng),
         _ => {
             eprintln!("unknown mode {mode}");
             return 2;
@@ -481,6 +482,66 @@ fn equiv(args: &Args, b: &mut Batcher, rng: &mut SmallRng) {
         if !same {
             b.samples.push(json!({"DIFFERENT": format!("{:?}", outs.iter().map(|o| &o.0).collect::<Vec<_>>()),
                                   "prog": prog.iter().map(|o| crate::jv::to_raw(&ops::op_json(o))).collect::<Vec<_>>()}));
+        }
+    }
+}
+
+
+/// C02 / C10: Compute under thread pools of 1..16 workers with the children held up so that they
+/// finish in reverse index order / random order; every run validated by TraceVm and compared.
+fn sched(args: &Args, b: &mut Batcher, rng: &mut SmallRng) {
+    use std::sync::Arc;
+    const TICK: i64 = -98;
+    let count = if args.thorough { 60 } else { 14 } / args.shard.1.max(1);
+    let pools: Vec<usize> = if args.thorough { vec![1, 2, 3, 4, 8, 16] } else { vec![1, 2, 4, 16] };
+    for i in 0..count {
+        let breadth = rng.gen_range(2..9i64);
+        // child: tick(index); allocate index+1 words; store index; child k (random) halts early / fails
+        let special = rng.gen_range(0..breadth);
+        let mode = rng.gen_range(0..4);
+        let mut prog = vec![push(3), by("ALOC"), by("POP"), push(breadth), by("COM")];
+        prog.extend([by("DUP"), push(TICK), push(2), push(0), push(0), by("KRNG")]);
+        prog.extend([by("DUP"), push(1), by("ADD"), by("ALOC"), by("POP"), by("DUP"), by("DUP"), by("STO")]);
+        match mode {
+            0 => prog.extend([by("DUP"), push(special), by("EQ"), by("HLTIF")]),
+            1 => prog.extend([by("DUP"), push(special), by("EQ"), by("PNCIF")]),
+            _ => {}
+        }
+        prog.extend([push(0), by("LODP"), by("POP"), by("COME"), push(9)]);
+        let mut sigs = vec![];
+        for pool in &pools {
+            for strat in ["none", "reverse", "random"] {
+                if *pool == 1 && strat != "none" {
+                    continue;
+                }
+                let seed: u64 = rng.gen();
+                let st = strat.to_string();
+                let mut cfg = std_cfg(prog.clone(), Snap::default());
+                cfg.max_breadth = 16;
+                cfg.limit = 10_000;
+                cfg.how = How::ExecOps;
+                if strat != "none" {
+                    cfg.pre.delay = Some(Arc::new(move |key: &[i64]| {
+                        if key.last() != Some(&TICK) {
+                            return std::time::Duration::ZERO;
+                        }
+                        let idx = key[0].rem_euclid(16) as u64;
+                        std::time::Duration::from_micros(if st == "reverse" { (16 - idx) * 200 } else { (seed ^ (idx * 0x9E37)) % 2000 })
+                    }));
+                }
+                let tp = rayon::ThreadPoolBuilder::new().num_threads(*pool).build().expect("pool");
+                let out = tp.install(|| run_traced(&cfg));
+                let label = format!("vsched/{}/{i}/p{pool}/{strat}", args.shard.0);
+                let em = emit_run(&cfg, &out, &label);
+                b.count("steps", em.steps as u64);
+                b.push_run(&label, em.events, raw_cfg(&cfg));
+                sigs.push(format!("{:?} {:?}", out.outcome, out.fin));
+            }
+        }
+        let same = sigs.windows(2).all(|w| w[0] == w[1]);
+        b.count(if same { "sched_same" } else { "sched_DIFFERENT" }, 1);
+        if !same {
+            b.samples.push(json!({"DIFFERENT": sigs, "prog": prog.iter().map(|o| crate::jv::to_raw(&ops::op_json(o))).collect::<Vec<_>>()}));
         }
     }
 }
